@@ -539,6 +539,8 @@ def run(ctx):
         races = [x for x in items if x.startswith("data race")]
         fails = [x for x in items if x.startswith("[")]
         parts = []
+        if any("[protocol skeleton]" in x for x in items):
+            parts.append("Start/Stop/loop have the shape refuted in Model/Lifecycle.v")
         if st_n:
             parts.append("%d shared field(s) without a common lock in the regenerated lock table" % st_n)
         if races:
